@@ -11,7 +11,7 @@
    read loop of an opened stream (which owns its teardown) is dead. *)
 From Coq Require Import List ZArith Bool.
 Import ListNotations.
-From Goat Require Import Model.Client Proofs.ClientBase Proofs.ClientInv Proofs.ClientLive.
+From Goat Require Import Model.Client Proofs.ClientBase Proofs.ClientInv Proofs.ClientLive Proofs.ClientLog Proofs.ClientRoute Proofs.ClientFin.
 From Goat Require Model.Server Proofs.ServerProofs Proofs.ServerInv Proofs.ServerLive.
 Open Scope Z_scope.
 
@@ -43,6 +43,17 @@ Theorem C14_cancel_released : forall ls s, lrun init ls = Some s -> quiescent s 
   forall c k, nth_error (calls s) c = Some k -> k_pc k = POpen -> sctx_done k = true -> terminated k = true.
 Proof. exact C14_cancel_released_l. Qed.
 Print Assumptions C14_cancel_released.
+
+(* ... and every peer-driven outcome releases it: in every reachable quiescent state an opened stream that has taken a
+   final envelope - a trailer with ANY status (success, handler error) or a reset by the peer - has terminated, hence
+   (C14_released) holds no registration and no goroutine. Together with C14_cancel_released (caller cancel, deadline,
+   own teardown), C09_settles / C09_loops (read failure) and the unary / failed-open cases (terminated once returned)
+   this covers "however an RPC ends" outcome by outcome *)
+Theorem C14_final_released : forall ls s, lrun init ls = Some s -> quiescent s = true ->
+  forall c k e, nth_error (calls s) c = Some k -> k_pc k = POpen -> In e (taken c (log s)) -> is_final e = true ->
+    terminated k = true.
+Proof. exact C14_final_released_l. Qed.
+Print Assumptions C14_final_released.
 
 (* ---------- server side (Model/Server.v, proofs in Proofs/ServerInv.v, ServerLive.v) ---------- *)
 (* bounded, always: the registry of a server connection holds exactly one entry per LIVE stream handler goroutine
